@@ -8,7 +8,9 @@ def rnd(n):
     if n <= 5: return '3'
     if n <= 8: return '4'
     if n <= 10: return '5'
-    return '6'
+    if n <= 12: return '6'
+    if n <= 13: return '7'
+    return '8'
 
 rows = []
 for d in sorted(glob.glob('/verif/seeded/C*-m*'), key=lambda p: (p.split('/')[-1].split('-')[0], int(p.split('-m')[-1]))):
